@@ -25,13 +25,21 @@ P("C02", "proof", "Lean 4 theorems (decomposition after the prefix = split-based
   "prefix-kind queries, extracted from the matches! arms of the source on every run, are the documented ones "
   "(kind_sets_eq, by decide); prefix / has_prefix / has_any_verbatim_prefix / implicit root / physical root / root / "
   "absoluteness are the obvious functions of the decomposition (win_queries).",
-  "Partial: that the byte-level prefix parser (six ordered alternatives with not(...) guards) assigns kind and payload "
-  "as the documented prefix grammar does is NOT proved; the harness's independent grammar (spec.rs win_prefix, "
+  "Prefix classification: exact declarative characterisations of when the disk, verbatim-disk and device-namespace "
+  "kinds are produced, with payload and what follows (C02b.disk_iff, verbatim_disk_iff, device_ns_iff); the header "
+  "every kind requires (C02b.kind_header); the not(...) guards of prefix_verbatim are redundant where it is called "
+  "(prefixVerbatim_guards_redundant). "
+  "Partial: exact conditions for the UNC, verbatim and verbatim-UNC kinds (the fall-through corners `\\\\?\\` alone, "
+  "`\\\\?\\UNC\\` without a server, `\\\\.\\` without a device, which the documentation leaves open) are NOT "
+  "proved; for the full classification the harness's independent grammar (spec.rs win_prefix, "
   "DESIGN A.2, validated on 205k inputs in the design round) is compared with the implementation on the near-miss "
   "domain (11-letter alphabet, all 256 drive bytes, 21 prefix seeds x tails) on every run. Model=code by differential "
   "testing. 'On every host platform': only a Linux host can be built here.",
   theorems=["TP.C02.win_decomp", "TP.C02.win_prefix_unique_first", "TP.C02.win_prefix_raw", "TP.C02.win_drive_ascii_upper",
-            "TP.C02.kind_sets_eq", "TP.C02.win_queries", "TP.C02.compsT_eq_bodySpec"],
+            "TP.C02.kind_sets_eq", "TP.C02.win_queries", "TP.C02.compsT_eq_bodySpec",
+            "TP.C02b.disk_iff", "TP.C02b.verbatim_disk_iff", "TP.C02b.device_ns_iff", "TP.C02b.kind_header",
+            "TP.C02b.prefixVerbatim_guards_redundant", "TP.C02b.takeNormal_iff"],
+  modules=["TypedPathVerif.Props.C02b"],
   rule=NONTRIV + "non-trivial = prefix or at least two components", design_ref="§5 C02")
 
 P("C03", "proof", "Lean 4 theorems (induction over tokens and over the step list) + model/code correspondence",
